@@ -1,4 +1,4 @@
-import MlModel.Lemmas.QueueLiveFinInv
+import MlModel.Lemmas.QueueVariant
 import MlModel.Properties.C04
 /-!
 # C04 — iterator queues always terminate (liveness part)
@@ -243,6 +243,47 @@ theorem C04_final (hwf : WF_enq maxEnq progs) (hnf : ∀ p ∈ progs, p.noFail =
     refine ⟨h1, ?_⟩
     -- the producer returned normally: it did not raise
     exact (hf.ct t htm).2.2.2.2.2.2.2.2 (hdone t htm) hpd
+
+/-! ## 4. Termination -/
+
+/-- **Variant.**  The measure `Phi` (`Lemmas/QueueVariantDefs.lean`; found by hand, validated by
+model checking 1.4·10⁸ transitions of small configurations before it was proved) strictly decreases
+on **every** step of every thread — with failing items, stoppers and timeouts in the model, any
+capacity, any mix of consumers.  Hypotheses: `WF_enq`; no `ignore_error` (with `ignore_error` and
+`maybe_stop(exc)` the consumer program `while True: get_batch()` does spin for ever:
+`Witness/C05.lean: C05_ignore_error_livelock_witness`); every `get_batch` program has a positive
+batch size (the real `get_batch(0)` means "the default 1024"). -/
+theorem C04_variant (hwf : WF_enq maxEnq progs) (hmax : ∀ m b, Prog.batchLoop m b ∈ progs → 0 < m)
+    (h : Reachable (init cap maxEnq to false progs) c)
+    {tid : Tid} {alt : Bool} {lbl : String} (hs : step c tid alt = some (lbl, c')) :
+    Phi c' < Phi c := by
+  have hv := varInv_reachable (varInv_init cap maxEnq to progs hwf hmax) h
+  exact variant_step hv.base hv.ig hv.max hv.rn hs
+
+/-- **No infinite execution**: from a reachable configuration `c` no execution has more than
+`Phi c` steps (no fairness assumption, every scheduler). -/
+theorem C04_bounded_executions (hwf : WF_enq maxEnq progs) (hmax : ∀ m b, Prog.batchLoop m b ∈ progs → 0 < m)
+    (h : Reachable (init cap maxEnq to false progs) c) {n : Nat} (hn : StepsN c n c') : n ≤ Phi c := by
+  have := stepsN_bound (varInv_reachable (varInv_init cap maxEnq to progs hwf hmax) h) hn
+  omega
+
+/-- **Every maximal execution ends in a final configuration**: executions are bounded
+(`C04_bounded_executions`), and an execution that cannot be extended has all threads done
+(`C04_no_deadlock`).  Stated for the C04 setting (no timeout; failing items / stoppers allowed). -/
+theorem C04_terminates (hwf : WF_enq maxEnq progs) (hmax : ∀ m b, Prog.batchLoop m b ∈ progs → 0 < m)
+    (hP : 0 < maxEnq ∨ (∃ p ∈ progs, p.isStopper = true) ∨ ¬ ∃ p ∈ progs, p.isCons = true)
+    (hC : cap = 0 ∨ (∃ p ∈ progs, p.isCons = true) ∨ ∃ p ∈ progs, p.isStopper = true)
+    (h : Reachable (init cap maxEnq false false progs) c) {n : Nat} (hn : StepsN c n c') :
+    n ≤ Phi c ∧ (enabled c' = [] → c'.allDone = true) := by
+  have hr : Reachable (init cap maxEnq false false progs) c' := by
+    clear hmax hP hC
+    induction hn with
+    | zero => exact h
+    | succ hs _ ih => exact ih (.step h hs)
+  refine ⟨C04_bounded_executions hwf hmax h hn, fun hdead => ?_⟩
+  rcases C04_no_deadlock hwf hP hC hr with h1 | h1
+  · exact h1
+  · exact absurd hdead h1
 
 /-! ### Non-vacuity (tests of the definitions, by `decide` over concrete schedules) -/
 
